@@ -58,7 +58,7 @@ int ignore_paren_expression(AsmContext *asm_context)
       paren_count--;
     }
       else
-    if (token_type == TOKEN_EOL)
+    if (token_type == TOKEN_EOL || token_type == TOKEN_EOF)
     {
       print_error_unexp(asm_context, token);
       return -1;
